@@ -52,7 +52,20 @@ pub fn plant(mut skeleton: MNode, lits: Vec<String>, dup: Option<(u8, u8)>, iden
 
 /// planted textbook expressions; `decimal` literals look like 37.25, integers like 3725
 pub fn planted_textbook(decimal: bool, ident_share: f64, cfg: TexCfg) -> BoxedStrategy<Planted> {
-    let hole = Just(MNode::mn(HOLE)).boxed();
+    planted_textbook_with(decimal, ident_share, cfg, false)
+}
+
+/// `mixed`: one operand in thirteen is a mixed number, a whole part directly followed by a fraction (three literals)
+pub fn planted_textbook_with(decimal: bool, ident_share: f64, cfg: TexCfg, mixed: bool) -> BoxedStrategy<Planted> {
+    let hole = if mixed {
+        prop_oneof![
+            12 => Just(MNode::mn(HOLE)),
+            1 => Just(MNode::row(vec![MNode::mn(HOLE), MNode::el("mfrac", vec![MNode::mn(HOLE), MNode::mn(HOLE)])])),
+        ]
+        .boxed()
+    } else {
+        Just(MNode::mn(HOLE)).boxed()
+    };
     let ident = proptest::option::weighted(ident_share, prop_oneof![4 => one_char_of("abcxyzuvwkmnt"), 1 => one_char_of("ABCXYZ"), 1 => one_char_of("αβγθλ")]).prop_map(|o| o.unwrap_or_default());
     (textbook(hole, cfg), distinct_literals(24, decimal), proptest::option::weighted(0.1, (any::<u8>(), any::<u8>())), proptest::collection::vec(ident, 24))
         .prop_map(|(sk, lits, dup, idents)| plant(sk, lits, dup, &idents))
